@@ -1104,8 +1104,9 @@ class Explorer:
             return None
         return (cell, vec, run.locterm(rhs.get("obj"), fr) if rhs.get("obj") is not None else vec)
 
-    def explore(self, func, this=None, params=None, heap=None, limit=MAX_PATHS):
-        """Enumerate the paths of func. params: {name: term}; heap: {(base, field): term}. -> [Outcome]"""
+    def explore(self, func, this=None, params=None, heap=None, limit=MAX_PATHS, body=None):
+        """Enumerate the paths of func (or of one statement `body` of it, evaluated in isolation: locals declared outside it
+        are atoms named after themselves). params: {name: term}; heap: {(base, field): term}. -> [Outcome]"""
         outcomes = []
         work = [[]]
         while work:
@@ -1118,13 +1119,13 @@ class Explorer:
                 v0 = (params or {}).get(p["n"], ("a", p["n"]))
                 fr.vars[key] = run.new_cell(v0, loc=v0 if isinstance(v0, tuple) and v0 and v0[0] == "a" else None)
             try:
-                for ini in func.d.get("inits", []) or []:
+                for ini in (func.d.get("inits", []) or []) if body is None else []:
                     if ini.get("field") and ini.get("e") is not None and this is not None:
                         run.heap[(this, ini["field"])] = run.ev(ini["e"], fr)
                     elif ini.get("e") is not None:
                         run.ev(ini["e"], fr)
                 if run.status is None:
-                    run.stmt(func.body, fr)
+                    run.stmt(func.body if body is None else body, fr)
             except NeedDecision:
                 work.append(dec + [False])
                 work.append(dec + [True])
